@@ -125,6 +125,9 @@ def _worker(args):
     from hypothesis import HealthCheck, Phase, given, settings
     from hypothesis import seed as hseed
     mod = importlib.import_module("pbt.props.%s" % prop_id.lower())
+    # bound the time spent minimising a failure (default is 300 s per failure)
+    import hypothesis.internal.conjecture.engine as _eng
+    _eng.MAX_SHRINKING_SECONDS = 25 if tier == "quick" else 120
     ctx = Ctx(build_dirs, tier, prop_id)
     stats = Stats()
     opens = known_open_for(prop_id)
